@@ -156,6 +156,13 @@ def gen_case(rng, arm, tier, k=0):
     # parse_loader returns, a Fortran-ordered array, every second row of a larger buffer)
     case["layout_t"] = rng.choice(("c", "c", "f", "cols", "strided"))
     case["layout_v"] = rng.choice(("c", "c", "f", "cols", "strided"))
+    if arm == "prune" and K >= 3 and rng.random() < 0.4:
+        # a class that occurs in the training set only (the top class stays, for opf_accuracy)
+        gone = rng.randrange(K - 1)
+        keep_ = [c_ for c_ in range(K) if c_ != gone]
+        case["Yv"] = [y if y != gone else rng.choice(keep_) for y in case["Yv"]]
+        if K - 1 not in case["Yv"]:
+            case["Yv"][0] = K - 1
     if arm == "relevance":
         case["passes"] = rng.randint(1, 3)
         r_ = rng.random()
